@@ -405,6 +405,15 @@ class ResultTypesGenerator:
         if selection_value == root_type:
             return root_type
 
+        selection_type = self.schema.type_map.get(selection_value)
+        if (
+            isinstance(type_, GraphQLObjectType)
+            and isinstance(selection_type, GraphQLUnionType)
+            and type_ in selection_type.types
+        ):
+            # fragment on a union applies to each of its member types
+            return root_type
+
         return None
 
     def _unpack_fragment(
